@@ -3,6 +3,13 @@
 // @h c10_int_q_uint8 tier=quick
 // @h c10_int_q_int64 tier=quick
 // @h c10_int_q_uint64 tier=quick
+// @h c10_int_q_int8 tier=quick
+// @h c10_int_q_int16 tier=quick
+// @h c10_int_q_uint16 tier=quick
+// @h c10_int_q_int tier=quick
+// @h c10_int_q_int32 tier=quick
+// @h c10_int_q_uint tier=quick
+// @h c10_int_q_uint32 tier=quick
 // @h c10_int_q_excl_none tier=quick
 // @h c10_int_q_excl_uint8 tier=quick
 // @h c10_int_q_default_uint8 tier=quick
@@ -252,6 +259,14 @@ int_harness!(c10_int_q_none, None, 0b000011);
 int_harness!(c10_int_q_uint8, Some("uint8"), 0b000011);
 int_harness!(c10_int_q_int64, Some("int64"), 0b000011);
 int_harness!(c10_int_q_uint64, Some("uint64"), 0b000011);
+// every row of the format table is exercised in the quick tier (inclusive bounds symbolic)
+int_harness!(c10_int_q_int8, Some("int8"), 0b000011);
+int_harness!(c10_int_q_int16, Some("int16"), 0b000011);
+int_harness!(c10_int_q_uint16, Some("uint16"), 0b000011);
+int_harness!(c10_int_q_int, Some("int"), 0b000011);
+int_harness!(c10_int_q_int32, Some("int32"), 0b000011);
+int_harness!(c10_int_q_uint, Some("uint"), 0b000011);
+int_harness!(c10_int_q_uint32, Some("uint32"), 0b000011);
 // quick tier: exclusive bounds only
 int_harness!(c10_int_q_excl_none, None, 0b001100);
 int_harness!(c10_int_q_excl_uint8, Some("uint8"), 0b001100);
